@@ -20,6 +20,39 @@ K_CONFLICT = "inherited-field-signature-conflict"
 K_EXTREQ = "input-extension-adds-required-field"
 
 
+K_EXTCYCLE = "input-extension-closes-nonnull-cycle"
+
+
+def input_nonnull_edges(text):
+    """(edges of input object definitions, edges of input object extensions): T -> U for a field `f: U!` (non-null,
+    not a list) of an input object block"""
+    base, ext = set(), set()
+    for m in re.finditer(r"^(extend )?input (\w+)[^{\n]*\{\n(.*?)^\}", text, re.S | re.M):
+        for line in m.group(3).split("\n"):
+            f = re.match(r"  (\w+): (\w+)!(.*)$", line)
+            if f:
+                (ext if m.group(1) else base).add((m.group(2), f.group(2)))
+    return base, ext
+
+
+def has_cycle(edges):
+    succ = {}
+    for a, b in edges:
+        succ.setdefault(a, set()).add(b)
+    state = {}
+
+    def visit(n):
+        if state.get(n) == 1:
+            return True
+        if state.get(n) == 2:
+            return False
+        state[n] = 1
+        r = any(visit(m) for m in succ.get(n, ()))
+        state[n] = 2
+        return r
+    return any(visit(n) for n in list(succ))
+
+
 def extension_required_fields(text):
     """{(T, f)}: input object field f that an `extend input T { .. }` block of the document adds with a non-null type
     and no default value"""
@@ -259,12 +292,24 @@ def run(ctx):
         known = None
         if cls.startswith("validate/") and f is not None:
             kinds = set(cls[len("validate/"):].split("+"))
-            if kinds <= {"InvalidImplementationFieldType", "MissingInterfaceFieldArgument"} and f["conflict"] == "1":
+            if kinds <= {"InvalidImplementationFieldType", "MissingInterfaceFieldArgument",
+                         "ExtraRequiredImplementationFieldArgument"} and f["conflict"] == "1":
                 known = K_CONFLICT
-        if cls == "validate/RequiredField":
-            named = set(re.findall(r"the required field `(\w+)\.(\w+)` is not provided", detail))
-            if named and named <= extension_required_fields(text) and len(named) == len(detail.split(" || ")):
-                known = K_EXTREQ
+        if cls.startswith("validate/"):
+            # both classes come from input object extensions and can occur together in one document
+            kinds = set(cls[len("validate/"):].split("+"))
+            if kinds and kinds <= {"RecursiveInputObjectDefinition", "RequiredField"}:
+                msgs = detail.split(" || ")
+                ok = True
+                if "RequiredField" in kinds:
+                    req = [m for m in msgs if m.startswith("the required field ")]
+                    named = set(re.findall(r"the required field `(\w+)\.(\w+)` is not provided", detail))
+                    ok = ok and bool(named) and named <= extension_required_fields(text) and len(named) == len(req)
+                if "RecursiveInputObjectDefinition" in kinds:
+                    base, ext = input_nonnull_edges(text)
+                    ok = ok and not has_cycle(base) and has_cycle(base | ext)
+                if ok and len(msgs) < 40:
+                    known = K_EXTCYCLE if "RecursiveInputObjectDefinition" in kinds else K_EXTREQ
         if known and ctx.known_hit(known):
             fam["known"] += 1
             continue
